@@ -42,6 +42,7 @@ type pool struct {
 }
 
 func (p *pool) Acquire(ctx context.Context) (v wire) {
+	verifYield(ctx, "pool.Acquire", p, Completed{})
 	p.cond.L.Lock()
 
 	// Set up ctx handling when waiting for an available connection
@@ -52,6 +53,7 @@ func (p *pool) Acquire(ctx context.Context) (v wire) {
 		go func() {
 			<-poolCtx.Done()
 			if context.Cause(poolCtx) != errAcquireComplete { // no need to broadcast if the poolCtx is cancelled explicitly.
+				verifYield(nil, "pool.Acquire.cancel", p, Completed{})
 				p.cond.Broadcast()
 			}
 		}()
@@ -59,6 +61,7 @@ func (p *pool) Acquire(ctx context.Context) (v wire) {
 
 retry:
 	for len(p.list) == 0 && p.size == p.cap && !p.down && ctx.Err() == nil {
+		verifYield(ctx, "pool.Acquire.wait", p, Completed{})
 		p.cond.Wait()
 	}
 
@@ -104,6 +107,7 @@ retry:
 }
 
 func (p *pool) Store(v wire) {
+	verifYield(nil, "pool.Store", p, Completed{})
 	p.cond.L.Lock()
 	if !p.down && v.Error() == nil {
 		p.list = append(p.list, v)
@@ -114,10 +118,12 @@ func (p *pool) Store(v wire) {
 		v.Close()
 	}
 	p.cond.L.Unlock()
+	verifYield(nil, "pool.Store.unlocked", p, Completed{})
 	p.cond.Signal()
 }
 
 func (p *pool) Close() {
+	verifYield(nil, "pool.Close", p, Completed{})
 	p.cond.L.Lock()
 	p.down = true
 	p.stopTimer()
@@ -142,6 +148,7 @@ func (p *pool) startTimerIfNeeded() {
 }
 
 func (p *pool) removeIdleConns() {
+	verifYield(nil, "pool.cleanup", p, Completed{})
 	p.cond.L.Lock()
 	defer p.cond.L.Unlock()
 
